@@ -32,6 +32,7 @@ from .. import fw
 from .. import fingerprint as FP
 from ..fw import Case
 from ..gen import fields_C09 as G
+from ..gen import props_C09 as P
 
 REQUIRED = [
     "C09_registry_sound",
@@ -50,20 +51,46 @@ REQUIRED = [
     "C09_formula_terms_overwrite_counterexample",
     "C09_separate_partial",
     "C09_order_partial",
+    "C09_global_only_if_every_field_equal",
+    "C09_own_properties_read_back",
+    "C09_no_property_inherited",
+    "C09_properties_separate",
+    "C09_properties_order_independent",
+    "C09_properties_order_multiset",
+    "C09_forced_global_counterexample",
+    "C09_global_skip_rule_counterexample",
+    "C09_cell_method_axis_is_own_scalar_coordinate",
+    "C09_reader_scalar_axis_of_cell_method",
+    "C09_group_own_properties_read_back",
+    "C09_group_no_property_inherited",
+    "C09_group_model_extends_flat",
+    "C09_group_attribute_old_counterexample",
+    "C09_formula_terms_acquired_counterexample",
+    "C09_dimension_nameOld_counterexample",
+    "C09_group_properties_order_independent",
+    "C09_group_properties_separate",
 ]
-BUDGET = {"quick": 80, "thorough": 900}
+BUDGET = {"quick": 128, "thorough": 1400}
 QUICK_JOBS = 8
 TIME_LIMIT = {"quick": 170, "thorough": 1400}
 RULE = (
-    "families of 2-5 constructs (fields and domains) derived from one ancestor (hand-built lat/lon and hybrid-height "
-    "fields, cfdm.example_field 0-7, random fields of harness/gen/fields.py, DSG/gathered/geometry seed files) by "
-    "1-3 perturbations each: equal metadata + other data, exact duplicate, coordinate values / bounds / units / one "
-    "property / dtype changed, equal content under other pinned netCDF names, same pinned name for other content, "
-    "pinned dimension names, unlimited, dimension coordinate removed, auxiliary coordinate copied from a domain "
-    "ancillary, grid mapping / datum added, changed, removed, formula-terms datum / domain ancillary changed, cell "
-    "methods, subspace / transpose, domain of the field; every ordering for <= 3 fields (quick) / <= 4 (thorough), "
-    "a sample beyond.  non-trivial = the file written holds >= 1 variable referenced by >= 2 data variables or >= 2 "
-    "variables with equal content; distinct = distinct (recipe, order)"
+    "C09.wr / C09.seed: families of 2-5 constructs (fields and domains) derived from one ancestor (hand-built lat/lon, "
+    "hybrid-height and scalar-axis-first fields, cfdm.example_field 0-7, random fields of harness/gen/fields.py, DSG/"
+    "gathered/geometry seed files) by 1-3 perturbations each: equal metadata + other data, exact duplicate, coordinate "
+    "values / bounds / units / one property / dtype changed, equal content under other pinned netCDF names, same pinned "
+    "name for other content, pinned dimension names, constructs without default names, unlimited, dimension coordinate "
+    "removed, auxiliary coordinate copied from a domain ancillary, grid mapping / datum added, changed, removed, "
+    "formula-terms datum / domain ancillary changed, cell methods, subspace / transpose, domain of the field, a "
+    "description-of-file-contents property set / changed / removed on one sibling, per candidate property every sibling "
+    "in one of the states A / B / absent, shared scalar coordinates under a cell method whose axis identifier differs "
+    "from the reader's, unrelated constructs in which one identifier plays different roles; every ordering for <= 3 "
+    "fields (quick) / <= 4 (thorough), a sample beyond.  C09.gp: 2-4 small fields x per candidate property (description-"
+    "of-file-contents attributes, free names) the pattern all / first only / last only / one only / all but first / all "
+    "but last / one differs / first differs / random x global_attributes= / variable_attributes= / file_descriptors= / "
+    "nc_set_global_attribute flags and forced values x (25%) netCDF groups (same group, sub-group, root + group, two "
+    "groups, deep) with nc_set_group_attribute flags; every ordering.  non-trivial = wr: the file written holds >= 1 "
+    "variable referenced by >= 2 data variables or >= 2 variables with equal content; gp: always (>= 2 fields); "
+    "distinct = distinct (recipe / payload, orders)"
 )
 ASSUMPTIONS = [
     "the comparison basis is what cfdm.read returns for cfdm.write([f]) of each construct alone (C01 owns the single-"
@@ -73,8 +100,12 @@ ASSUMPTIONS = [
     "names) and by theorem C09_names_*; the oracle compares constructs with cfdm equals + fingerprint(names=False)",
     "domains are read with cfdm.read(domain=True); variables referenced only by domain variables come back as extra "
     "fields of cfdm.read(domain=False) by design and are not counted",
-    "model scope: no groups, compression, geometry, external variables, string-length dimensions, append mode; those "
-    "are covered by the oracle-only stream",
+    "model scope (C09.wr): no groups, compression, geometry, external variables, string-length dimensions, append mode; "
+    "those are covered by the oracle-only stream; C09.gp: group attributes are flags only (a group attribute with a value of "
+    "its own replaces the property for the whole group by design), Conventions is left out of every comparison",
+    "C09.gp compares the implementation with the model of the writer as patched by fixes/C09-group-attribute-placement.patch "
+    "and, where the unpatched placement differs (model flag old=1), accepts the model's account of the unpatched writer; what "
+    "is read back is judged by the oracle in either case",
     "files holding a scalar string coordinate are read through netcdf_backend='h5netcdf' (with the netCDF4 backend the "
     "repeated re-opening of the file being read crashes the interpreter in netCDF-C here)",
 ]
@@ -803,6 +834,7 @@ def impl(c):
         return "skip"
     ex["n"] = len(fs)
     ex["nd"] = sum(1 for x in fs if type(x).__name__ == "Domain")
+    ex["originals"] = fs
     # single-file writes: the comparison basis
     singles = []
     for f in fs:
@@ -834,11 +866,59 @@ def impl(c):
 
 
 # =========================================================================== oracle
+def prop_view(x):
+    """the property set of a field/domain: name -> canonical value text (numeric types and containers normalised);
+    `Conventions` is what the writer itself puts into every dataset and is left out"""
+    out = {}
+    for k, v in x.properties().items():
+        if k != "Conventions":
+            out[k] = json.dumps(_pnorm(v), sort_keys=True)
+    return out
+
+
+def props_vs_originals(ex, order):
+    """Direct comparison of the property sets of the constructs read from the shared dataset with those of the
+    ORIGINALS (not through `equals`, not through the single-file reads): as multisets they must be the same.  A
+    deviation that the construct shows identically when written to a file of its own is C01's (single round trip),
+    not a matter of sharing: there the single-file read stands in for the original."""
+    o = ex["orders"][order]
+    if "error" in o:
+        return None
+    want, dev = [], 0
+    for f, s in zip(ex["originals"], ex["singles"]):
+        dom = type(f).__name__ == "Domain"
+        a, b = prop_view(f), prop_view(s)
+        if a != b:
+            dev += 1
+        want.append((dom, json.dumps(b if a != b else a, sort_keys=True)))
+    ex["c01_prop_deviations"] = dev
+    for dom, what, got_list in ((False, "field", o["fields"]), (True, "domain", o["domains"])):
+        W = sorted(w for d, w in want if d == dom)
+        if not W or (not dom and ex["nd"]):
+            continue  # (with domain variables in the file cfdm.read(domain=False) returns extra fields by design)
+        Gt = sorted(json.dumps(prop_view(x), sort_keys=True) for x in got_list)
+        if W != Gt:
+            only_w = [json.loads(x) for x in W if x not in Gt]
+            only_g = [json.loads(x) for x in Gt if x not in W]
+            msg = f"order {list(order)}: property sets of the {what}s read from the shared dataset differ from the originals"
+            if only_w and only_g:
+                a, b = only_w[0], only_g[0]
+                gained = {k: b[k] for k in b if k not in a}
+                lost = {k: a[k] for k in a if k not in b}
+                changed = {k: (a[k], b[k]) for k in a if k in b and a[k] != b[k]}
+                msg += f": gained {gained} lost {lost} changed {changed}"
+            return msg[:600]
+    return None
+
+
 def judge(ex, order):
     """None or a failure description for one ordering"""
     o = ex["orders"][order]
     if "error" in o:
         return f"order {list(order)}: write/read raised {o['error']}: {o['msg']}"
+    pv = props_vs_originals(ex, order)
+    if pv:
+        return pv
     singles = ex["singles"]
     sf = [s for s in singles if type(s).__name__ != "Domain"]
     sd = [s for s in singles if type(s).__name__ == "Domain"]
@@ -862,6 +942,8 @@ def judge(ex, order):
 def oracle(c):
     """Decides the case, and — because the constructs read back are heavy and are not shipped between
     processes — also caches the model agreement and the signature of a failure, then frees them."""
+    if c.stream == "C09.gp":
+        return gp_oracle(c)
     ex = c.extra
     if ex is None or ex.get("skip"):
         return None
@@ -875,7 +957,7 @@ def oracle(c):
     c.oracle_fail = verdict
     ex["agree"] = _agree(c)
     ex["sig"] = _classify(c) if verdict else None
-    for k in ("orders", "singles", "ids"):
+    for k in ("orders", "singles", "ids", "originals"):
         ex.pop(k, None)
     ex["pinned"] = sorted(ex.get("pinned") or ())
     ex["fail_order"] = list(ex["fail_order"]) if ex.get("fail_order") else None
@@ -884,6 +966,8 @@ def oracle(c):
 
 # =========================================================================== agreement with the model
 def agree(c):
+    if c.stream == "C09.gp":
+        return gp_agree(c)
     ex = c.extra
     if ex is None or ex.get("skip") or c.model_out is None:
         return True
@@ -937,11 +1021,11 @@ def _agree(c):
 def model_flags(c):
     if not c.model_out:
         return None
-    m = re.match(r"ok=(\d) ft=(\d) dup=(\d) old=(\d)(\d)(\d)(\d)(\d) ", c.model_out)
+    m = re.match(r"ok=(\d) ft=(\d) dup=(\d) old=(\d)(\d)(\d)(\d)(\d)(\d) ", c.model_out)
     if not m:
         return None
     return dict(ft=m.group(2) == "1", d1=m.group(4) == "1", d2=m.group(5) == "1", d4=m.group(6) == "1", d5=m.group(7) == "1",
-                d8=m.group(8) == "1")
+                d8=m.group(8) == "1", d9=m.group(9) == "1")
 
 
 # =========================================================================== classification of failures
@@ -969,11 +1053,37 @@ def _same_but_vertical_datums(ex, order):
     return A == B if not ex["nd"] else all(a in B for a in A)
 
 
+def _coarse(detail):
+    """failures that match no recorded finding are grouped by the kind of difference (one replay per kind rather than
+    one per failing case); never the signature of a known finding"""
+    d = str(detail or "")
+    m = re.search(r"raised (\w+)", d)
+    if m:
+        return "unclassified:raised-" + m.group(1)
+    if "property sets" in d or "properties of the original" in d:
+        return "unclassified:properties-differ-from-original"
+    if "file of its own" in d:
+        return "unclassified:properties-differ-from-single-file-write"
+    if "global attributes" in d or "attributes of data variable" in d:
+        return "unclassified:attribute-placement"
+    m = re.search(r"(\d+) (?:fields|domains) read, (\d+) written", d)
+    if m:
+        return "unclassified:construct-count"
+    m = re.search(r"\) (/[a-z_]+)", d)
+    if m:
+        return "unclassified:no-equal-partner" + m.group(1)
+    return None
+
+
 def classify(c):
     ex = c.extra
+    if c.stream == "C09.gp":
+        if not (c.oracle_fail and isinstance(ex, dict)):
+            return None
+        return ex.get("sig") or _coarse(c.oracle_fail)
     if not ex or ex.get("skip") or not c.oracle_fail:
         return None
-    return ex.get("sig")
+    return ex.get("sig") or _coarse(c.oracle_fail)
 
 
 def _classify(c):
@@ -987,10 +1097,15 @@ def _classify(c):
     if o.get("error") == "ValueError" and "(1, 1)" in msg and "does not match the shape" in msg:
         return "read-shared-scalar-string-coordinate-inserted-twice"
     if "error" in o and "String match to name in use" in msg:
+        if fl.get("d9") or (fl == {} and _unnamed_dimcoord_guess(c)):
+            return "write-unnamed-dimension-coordinate-takes-dimension-name-in-use"
         if fl.get("d4") or fl == {}:
             return "write-default-names-with-blank-collide"
     comp = _compression_types(c)
-    if len(set(ex.get("feature_types", []))) > 1 and None in ex.get("feature_types", []):
+    fts, cl = ex.get("feature_types", []), ex.get("comp_list", [])
+    if None in fts and any(ft is not None and str(t).startswith("ragged") for ft, t in zip(fts, cl)):
+        # (only a *discrete sampling geometry* - ragged compression + featureType - beside a construct without
+        # featureType; a featureType property on an uncompressed field is an ordinary property)
         return "write-featureType-dropped-when-another-construct-lacks-it"
     if "ragged indexed contiguous" in comp and len([1 for t in ex.get("comp_list", []) if t == "ragged indexed contiguous"]) >= 2:
         if o.get("error") == "KeyError":
@@ -1004,6 +1119,8 @@ def _classify(c):
         return None
     if fl.get("ft") or (fl == {} and _ft_conflict_guess(c)):
         return "write-formula-terms-overwritten-on-shared-coordinate"
+    if "error" not in o and _ft_gain_guess(c):
+        return "write-formula-terms-acquired-through-shared-coordinate"
     if "error" not in o and _same_but_vertical_datums(ex, order):
         return "read-vertical-crs-datum-leaks-across-fields"
     if fl.get("d8"):
@@ -1060,6 +1177,46 @@ def _ft_conflict_guess(c):
     return False
 
 
+def _ft_gain_guess(c):
+    """one construct owns formula terms through a parametric coordinate, another construct has an equal coordinate (so
+    the coordinate variable, which carries the formula_terms attribute, is shared) but no formula terms of its own"""
+    try:
+        fs = G.build(c.payload["recipe"])
+    except Exception:
+        return False
+    owned, free = set(), set()
+    for f in fs:
+        coords = f.coordinates(todict=True)
+        own = set()
+        for r in f.coordinate_references(todict=True).values():
+            if r.coordinate_conversion.get_parameter("standard_name", None) and r.coordinate_conversion.domain_ancillaries():
+                own |= {k for k in r.coordinates() if k in coords}
+        for k, zc in coords.items():
+            if zc.get_data(None) is None:
+                continue
+            z = json.dumps(FP.fp_construct(zc, names=False), sort_keys=True, default=str)
+            (owned if k in own else free).add(z)
+    return bool(owned & free)
+
+
+def _unnamed_dimcoord_guess(c):
+    """without the model: some construct has a dimension coordinate with neither a netCDF variable name nor a
+    standard_name on an axis that pins a netCDF dimension name"""
+    try:
+        fs = G.build(c.payload["recipe"])
+    except Exception:
+        return False
+    for f in fs:
+        da = f.constructs.data_axes()
+        axes = f.domain_axes(todict=True)
+        for k, dc in f.dimension_coordinates(todict=True).items():
+            if dc.nc_get_variable(None) is None and dc.get_property("standard_name", None) is None:
+                a = axes.get(da[k][0])
+                if a is not None and a.nc_get_dimension(None) is not None:
+                    return True
+    return False
+
+
 def _square_guess(c):
     try:
         fs = G.build(c.payload["recipe"])
@@ -1087,6 +1244,10 @@ def _mk(stream, payload, line, key, tags):
 def gen(rng, tier, n):
     nmax = 3 if tier == "quick" else 5
     for i in range(n):
+        if i % 8 in (2, 5, 7):
+            p, tags = P.gen_case(rng, tier)
+            yield gp_case(p, tags)
+            continue
         recipe, fams = G.random_recipe(rng, 2, nmax if rng.random() < 0.8 else 2)
         yield case_from(recipe, fams, tier, rng.randint(0, 10 ** 9))
 
@@ -1118,6 +1279,8 @@ _impl0 = impl
 
 
 def impl(c):  # noqa: F811  (wrap: attach ids/pinned computed at generation time)
+    if c.stream == "C09.gp":
+        return gp_impl(c)
     out = _impl0(c)
     pin = getattr(c, "_pin", None)
     if c.extra is not None:
@@ -1145,12 +1308,267 @@ def impl(c):  # noqa: F811  (wrap: attach ids/pinned computed at generation time
 
 
 def from_payload(stream, payload):
+    if stream == "C09.gp":
+        return gp_case(payload, [])
     return case_from(payload["recipe"], [], "quick", 0, orders=payload["orders"])
+
+
+# =========================================================================== stream C09.gp: properties / global attributes
+def gp_case(p, tags):
+    c = Case("C09.gp", p, P.line(p), key=json.dumps(p, sort_keys=True), nontrivial=True, tags=list(tags) + ["gp"])
+    return c
+
+
+def _dict_txt(d):
+    return ",".join(f"{k}~{v}" for k, v in sorted(d.items()) if k != "Conventions")
+
+
+def _gp_observe(fs, idx, kw, paths=None, names=None):
+    """write the fields `idx` (indices into fs) to one dataset; -> (globals, {i: variable attributes}, {i: properties read
+    back}, {group path: attributes})"""
+    import netCDF4
+    C = cfdm()
+    path = tmpfile()
+    try:
+        C.write([fs[i] for i in idx], path, **kw)
+        nc = netCDF4.Dataset(path, "r")
+        try:
+            glob = {a: P.token_of(nc.getncattr(a)) for a in nc.ncattrs() if a != "Conventions"}
+            va, grp = {}, {}
+            for i in idx:
+                where = nc
+                pth = paths[i] if paths else []
+                for k, gname in enumerate(pth):
+                    where = where.groups.get(gname)
+                    if where is None:
+                        raise fw.HarnessError(f"C09.gp: group {pth} not in the dataset")
+                if pth:
+                    grp["+".join(pth)] = {a: P.token_of(where.getncattr(a)) for a in where.ncattrs()}
+                v = where.variables.get(names[i] if names else f"f{i}")
+                if v is None:
+                    raise fw.HarnessError(f"C09.gp: variable f{i} not in the dataset")
+                va[i] = {a: P.token_of(v.getncattr(a)) for a in v.ncattrs() if a not in P.STRUCT}
+        finally:
+            nc.close()
+        rd = {}
+        back = {(names[i] if names else f"f{i}"): i for i in idx}
+        for g in C.read(path, netcdf_backend="h5netcdf"):
+            nm = (g.nc_get_variable(None) or "").split("/")[-1]
+            if nm in back:
+                rd[back[nm]] = {k: P.token_of(v) for k, v in g.properties().items() if k not in P.STRUCT}
+        return glob, va, rd, grp
+    finally:
+        if os.path.exists(path):
+            os.remove(path)
+
+
+def gp_impl(c):
+    p = c.payload
+    fs = P.build(p)
+    kw = P.write_kwargs(p)
+    ex = c.extra = dict(orders={}, singles={}, sig=None)
+    first = None
+    paths = [f.get("path") or [] for f in p["fields"]]
+    names = [P.ncvar_of(p, i) for i in range(len(fs))]
+    for order in p["orders"]:
+        try:
+            ob = _gp_observe(fs, order, kw, paths, names)
+        except fw.HarnessError:
+            raise
+        except Exception as e:
+            ob = "raised:" + fw.exc_enum(e) + "|" + str(e)[:400]
+        ex["orders"][tuple(order)] = ob
+        if first is None:
+            first = ob
+    for i in range(len(fs)):
+        try:
+            ex["singles"][i] = _gp_observe(fs, [i], kw, paths, names)[2].get(i)
+        except Exception as e:
+            ex["singles"][i] = "raised:" + fw.exc_enum(e)
+    if isinstance(first, str):
+        return first.split("|", 1)[0]
+    n = len(fs)
+    return ("glob=" + _dict_txt(first[0]) + " groups=" + ";".join(sorted(g + ":" + _dict_txt(a) for g, a in first[3].items()))
+            + " vars=" + "|".join(_dict_txt(first[1].get(i, {})) for i in range(n))
+            + " read=" + "|".join(_dict_txt(first[2].get(i, {"?": "missing"})) for i in range(n)))
+
+
+def gp_agree(c):
+    if c.model_out is None or not isinstance(c.impl_out, str):
+        return True
+    m = re.match(r"^(glob=.*) perm=([01]) old=([01])(?: OLD (glob=.*))?$", c.model_out)
+    if not m:
+        return False
+    if m.group(2) != "1":
+        return False
+    # the model is the writer with fixes/C09-group-attribute-placement.patch; where the code as it is places a group
+    # attribute differently (old=1) the model's account of THAT code is the yardstick as long as the patch is not in
+    # /repo (what is read back is judged by the oracle either way)
+    return m.group(1) == c.impl_out or (m.group(3) == "1" and m.group(4) == c.impl_out)
+
+
+def gp_expect(p, idx):
+    """The property text and the documentation of cfdm.write restated (no cfdm code): for the dataset holding the
+    fields `idx` -> (global attributes, {i: attributes of the data variable}, {i: properties read back})."""
+    fields = [p["fields"][i] for i in idx]
+    va = set(P.aslist(p["variable_attributes"]))
+    ga = set(P.aslist(p["global_attributes"]))
+    fd = dict(p["file_descriptors"] or {})
+    eligible = set(P.descr()) | ga | {k for f in fields for k, v in f["ncg"].items() if v is None}
+    forced = {}
+    for k in {k for f in fields for k, v in f["ncg"].items() if v is not None}:
+        vals = [f["ncg"].get(k) for f in fields]
+        if all(v is not None for v in vals) and len(set(vals)) == 1 and k not in fd:
+            forced[k] = vals[0]
+    glob = dict(fd)
+    glob.update({k: v for k, v in forced.items() if k != "Conventions"})
+    pg = {}
+    for k in {k for f in fields for k in f["props"]}:
+        vals = [f["props"].get(k) for f in fields]
+        if k in eligible and k not in va and k not in fd and k not in forced and all(v is not None for v in vals) and len(set(vals)) == 1:
+            pg[k] = vals[0]
+            if k != "Conventions":
+                glob[k] = vals[0]
+    vattrs, read = {}, {}
+    for i, f in zip(idx, fields):
+        own = {k: v for k, v in f["props"].items() if k != "Conventions"}
+        vattrs[i] = {k: v for k, v in own.items() if k not in pg}
+        r = dict(own)
+        for k, v in list(fd.items()) + list(forced.items()):
+            if k != "Conventions":
+                r.setdefault(k, v)
+        read[i] = r
+    return glob, vattrs, read
+
+
+def _dd(a, b):
+    ks = sorted(k for k in set(a) | set(b) if a.get(k) != b.get(k))
+    return "; ".join(f"{k}: {a.get(k)} expected {b.get(k)}" for k in ks)
+
+
+def gp_oracle(c):
+    ex, p = c.extra, c.payload
+    if not isinstance(ex, dict):
+        return None
+    n = len(p["fields"])
+    noconv = lambda d: {k: v for k, v in d.items() if k != "Conventions"}
+    verdict = None
+    for order, ob in ex["orders"].items():
+        if isinstance(ob, str):
+            verdict = f"order {list(order)}: write/read {ob}"
+            tops = {f["path"][0] for f in p["fields"] if f.get("path")}
+            if "String match to name in use" in ob and any(not f.get("path") and f.get("ncvar") in tops for f in p["fields"]) \
+                    and all(isinstance(s1, dict) for s1 in ex["singles"].values()):
+                ex["sig"] = "write-variable-named-like-a-group-of-the-dataset"
+            break
+        glob, va, rd, _grp = ob
+        eg, ev, er = gp_expect(p, list(order))
+        F = p["fields"]
+        for i in range(n):
+            if i not in rd:
+                verdict = f"order {list(order)}: field f{i} not read back"
+                break
+            # (1) against the ORIGINAL: own properties with own values, nothing inherited from another field
+            own = noconv(p["fields"][i]["props"])
+            got = noconv(rd[i])
+            lost = {k: v for k, v in own.items() if got.get(k) != v}
+            extra = {k: v for k, v in got.items() if k not in own and er[i].get(k) != v}
+            if lost or extra:
+                verdict = (f"order {list(order)}: field f{i} is not read back with the properties of the original: "
+                           f"lost/changed {lost}, gained {extra}")
+                pi = F[i].get("path") or []
+                # the two group-attribute findings (one proposed patch), alone or together on one field
+                g1 = bool(lost) and all((F[i].get("gattrs") or {}).get(k, 0) is None for k in lost)
+                g2 = bool(extra) and all(any((F[j].get("gattrs") or {}).get(k, 0) is None and len(F[j].get("path") or []) < len(pi)
+                                             and pi[: len(F[j].get("path") or [])] == (F[j].get("path") or []) for j in order)
+                                         for k in extra)
+                if (g1 or not lost) and (g2 or not extra):
+                    ex["sig"] = ("write-group-attribute-flag-drops-property-when-group-disagrees" if g1
+                                 else "write-group-attribute-inherited-by-sub-group-construct")
+                break
+            if got != noconv(er[i]):
+                verdict = f"order {list(order)}: properties of f{i}: {_dd(got, noconv(er[i]))}"
+                break
+            # (2) against the file of its own
+            s1 = ex["singles"].get(i)
+            if isinstance(s1, str) or s1 is None:
+                verdict = f"field f{i} alone: {s1}"
+                break
+            if noconv(s1) != got:
+                verdict = f"order {list(order)}: f{i} differs from the same field written to a file of its own: {_dd(got, noconv(s1))}"
+                only_forced = all(k in p["fields"][i]["ncg"] and p["fields"][i]["ncg"][k] is not None
+                                  for k in set(got) ^ set(noconv(s1)) | {k for k in got if k in s1 and got[k] != s1[k]})
+                if only_forced:
+                    ex["sig"] = "write-forced-global-value-dropped-when-another-construct-lacks-it"
+                break
+        if verdict:
+            break
+        # (3) placement in the file (what the model is compared on, restated)
+        if glob != eg:
+            verdict = f"order {list(order)}: global attributes: {_dd(glob, eg)}"
+            break
+        for i in range(n):
+            if F[i].get("path"):
+                continue  # (in a group the placement also depends on the group attributes: compared through the model)
+            if noconv(va.get(i, {})) != noconv(ev[i]):
+                verdict = f"order {list(order)}: attributes of data variable f{i}: {_dd(noconv(va.get(i, {})), noconv(ev[i]))}"
+                break
+        if verdict:
+            break
+    for k in ("orders", "singles"):
+        ex.pop(k, None)
+    return verdict
+
+
+def gp_shrink(c):
+    """drop fields, then property names, while the oracle still fails with the same signature"""
+    sig = classify(c)
+
+    def attempt(p):
+        c2 = gp_case(p, [])
+        c2.impl_out = gp_impl(c2)
+        try:
+            c2.model_out = fw.model_run([c2.line])[0]
+        except Exception:
+            c2.model_out = None
+        c2.oracle_fail = gp_oracle(c2)
+        return c2 if c2.oracle_fail and classify(c2) == sig else None
+
+    p = json.loads(json.dumps(c.payload))
+    best = None
+    changed = True
+    while changed:
+        changed = False
+        n = len(p["fields"])
+        if n > 2:
+            for i in range(n):
+                q = json.loads(json.dumps(p))
+                del q["fields"][i]
+                q["orders"] = [list(o) for o in itertools.permutations(range(n - 1))]
+                c2 = attempt(q)
+                if c2:
+                    p, best, changed = q, c2, True
+                    break
+        if changed:
+            continue
+        names = sorted({k for f in p["fields"] for k in list(f["props"]) + list(f["ncg"])})
+        for nm in names:
+            q = json.loads(json.dumps(p))
+            for f in q["fields"]:
+                f["props"].pop(nm, None)
+                f["ncg"].pop(nm, None)
+            c2 = attempt(q)
+            if c2:
+                p, best, changed = q, c2, True
+                break
+    return best
 
 
 # =========================================================================== shrinking
 def shrink(c, run):
     """drop siblings, then ops, while the oracle still fails with the same signature"""
+    if c.stream == "C09.gp":
+        return gp_shrink(c)
     sig = classify(c)
     best = c
     recipe = json.loads(json.dumps(c.payload["recipe"]))
